@@ -12,7 +12,7 @@ AGENT_SEQ = {'only_imports': True, 'imports': {'web_session.go': {'time': MC + '
 ENGINES = [
     {'name': 'tracefs', 'path': 'tracefs harness/drv harness/oracle', 'serves_properties': ['C03', 'C08', 'C09', 'C15'],
      'kind_free_text': 'strace-based system-call trace of a driver built from the real code, replayed in a Python file-system persistence model (validated against the real directory); exhaustive crash-state / fault / path enumeration'},
-    {'name': 'mc', 'path': 'mc tools/mcrewrite harness/agentmc', 'serves_properties': ['C10', 'C11'],
+    {'name': 'mc', 'path': 'mc tools/mcrewrite harness/agentmc', 'serves_properties': ['C10', 'C11', 'C12', 'C18', 'C19'],
      'kind_free_text': 'hand-written controlled scheduler + stateless/state-pruned DFS explorer for Go channel code, bound to the real source by an AST rewriter applied through go build -overlay'},
     {'name': 'seqx', 'path': 'harness/c01 harness/c02 harness/c14 harness/c16 harness/c18 harness/x', 'serves_properties': ['C01', 'C02', 'C14', 'C16', 'C18'],
      'kind_free_text': 'explicit-state BFS over operation sequences on the real store.Dir with a reference model (hand-written, Go)'},
@@ -134,6 +134,14 @@ CHECKS = {
         'text': 'Every system call of init/add/update/set-admin/remove is made to fail once with each applicable errno; an operation that reports failure must leave everything outside the work area byte-identical. Read-only and semantically failing calls are traced and must issue no mutating system call. Auxiliary data of every shape survives update / set-admin byte-for-byte, all other files untouched.',
         'note': 'One fault per run; library level (the frontends only add authenticate calls, see C04).',
         'parts': [TracePart('faults', 'c15_faults'), TracePart('readonly', 'c15_readonly'), GoBin('auxdata', 'harness/c15')],
+    },
+    'C19': {
+        'level': 'model_checking',
+        'engine': 'mc',
+        'technique': 'exhaustive schedule exploration of the rewritten agent + hook caller with virtual rate-limit/kill timers and modelled exec (state-pruned full reachability + deviation-bounded DFS); exhaustive enumeration of hooks-directory contents',
+        'text': 'Every ordering of change notifications, timer expiries and hook-process events is explored on the real hooks loop; monitors on the recorded process starts: every store change is followed by a round for that store, at most two rounds per interval, nothing runs without a change, a hanging hook is killed after exactly one minute and never blocks the agent. Every directory content of the enumeration is judged against the eligibility rule.',
+        'note': 'Processes are modelled (real eligibility test of the file, behaviour fast/failing/hanging chosen by the harness); timers are virtual.',
+        'parts': [McPart('mc', 'C19', 'cmd/whawty-auth', ['harness/agentmc'], AGENT_RW)],
     },
     'C10': {
         'level': 'model_checking',
